@@ -925,9 +925,18 @@ func main() {
 	ls := labels(r.Thorough())
 	sort.SliceStable(ls, func(i, j int) bool { return ls[i].name < ls[j].name })
 	// the bounded side families first: the tree enumeration below may use up the thorough deadline
+	phase := map[string]float64{}
+	t0 := time.Now()
+	lap := func(name string) { phase[name] = time.Since(t0).Seconds(); t0 = time.Now() }
 	twoRealRoots(r, ls)
+	lap("two-real-roots")
 	twoDifferentRoots(r, ls)
+	lap("two-different-roots")
+	twoRootsWithOptions(r, ls)
+	lap("two-roots-with-options")
 	wideDirectories(r)
+	lap("wide-directories")
+	defer func() {}()
 	completedNodes := -1
 	for n := 0; n <= maxNodes && !r.Expired(); n++ {
 		trees := genTrees(ls, n)
@@ -989,11 +998,13 @@ func main() {
 			completedNodes = n
 		}
 		r.Set(fmt.Sprintf("trees_with_%d_nodes", n), len(valid))
+		lap(fmt.Sprintf("trees-with-%d-nodes", n))
+		r.Set("phase_seconds", phase)
 	}
 	r.Set("bound", map[string]any{"max_nodes_completed": completedNodes, "max_option_deviations": maxDev, "extractor_sets": len(exSets)})
 	r.Assume("reference dispatch model (this file, ~200 lines) states git's .gitignore semantics for the 5-pattern alphabet and the skip rules of the property text")
 	r.Assume("regular-expression and glob *matching* are taken from the same libraries the implementation uses; only the dispatch logic is under test")
-	r.Finish(fmt.Sprintf("every tree with <=%d labelled nodes (names a, a.d, b.txt, 'd e', -x, .gitignore(6 bodies incl. a negation), pkg.json; dirs, files of size 0/1/5, exec bit, symlinks to file/dir/dangling, named pipe) x every option vector with <=%d deviations from the defaults (skip list, regex, glob, gitignore, requested paths incl. dir+file and '.', sub-dir cut-off, max size 1/5, symlinks, absolute paths, ReadDirFile on/off, virtual root vs. root with a host path and absolute skip/request paths) x %d extractor sets; Scanner.Scan over memfs vs reference dispatch model (trees <=3 nodes: scanned twice with the same configuration and plugin instances, second scan must equal the first); plus one directory of W entries for every W<=%d and 2^k-1,2^k,2^k+1,1.5*2^k up to %d x 3 placements x 5 directory-listing behaviours (ReadDir, ReadDirFile full batches, short batches of 1/3/100); non-trivial = some option active and >=1 extraction expected", maxNodes, maxDev, len(exSets), ev.Pick(r, 40, 300), ev.Pick(r, 1024, 4096)), completedNodes == maxNodes)
+	r.Finish(fmt.Sprintf("every tree with <=%d labelled nodes (names a, a.d, b.txt, 'd e', -x, .gitignore(6 bodies incl. a negation), pkg.json; dirs, files of size 0/1/5, exec bit, symlinks to file/dir/dangling, named pipe) x every option vector with <=%d deviations from the defaults (skip list, regex, glob, gitignore, requested paths incl. dir+file and '.', sub-dir cut-off, max size 1/5, symlinks, absolute paths, ReadDirFile on/off, virtual root vs. root with a host path and absolute skip/request paths) x %d extractor sets; Scanner.Scan over memfs vs reference dispatch model (trees <=3 nodes: scanned twice with the same configuration and plugin instances, second scan must equal the first); plus two virtual roots with different content (the tree and the tree without its top-level .gitignore / with other sizes, both orders) under every option vector with <=2 deviations, each root judged by the model on its own; plus one directory of W entries for every W<=%d and 2^k-1,2^k,2^k+1,1.5*2^k up to %d x 3 placements x 5 directory-listing behaviours (ReadDir, ReadDirFile full batches, short batches of 1/3/100); non-trivial = some option active and >=1 extraction expected", maxNodes, maxDev, len(exSets), ev.Pick(r, 40, 300), ev.Pick(r, 1024, 4096)), completedNodes == maxNodes)
 }
 
 func replay(r *ev.Run, p string) {
@@ -1276,5 +1287,123 @@ func wideDirectories(r *ev.Run) {
 	r.Set("wide_directory_cells", map[string]any{"cells": len(cells), "completed": done, "max_width": widths[len(widths)-1]})
 	if done < len(cells) {
 		r.Cap("wide-directory phase cut by the deadline")
+	}
+}
+
+// twoRootsWithOptions: two virtual scan roots with DIFFERENT content under every option vector
+// with <=2 deviations that does not address one root only (skip list/regex/glob, gitignore, size
+// limit, symlinks, ReadDirFile). The second root is the first one without its top-level
+// .gitignore (or, if it has none, its variant with other file sizes and modes), in both orders.
+// Nothing may leak from one root's walk into the next: expected calls = the dispatch model run on
+// each root separately.
+func twoRootsWithOptions(r *ev.Run, ls []label) {
+	es := exSets[1]
+	for n := 1; n <= ev.Pick(r, 3, 4); n++ {
+		var trees []*memfs.Node
+		for _, t := range genTrees(ls, n) {
+			if fixSymlinks(t) {
+				trees = append(trees, t)
+			}
+		}
+		r.ParallelFor(len(trees), func(i int) {
+			t := trees[i]
+			second := t.Clone()
+			kept := second.Children[:0]
+			hadGit := false
+			for _, c := range second.Children {
+				if c.Name == ".gitignore" {
+					hadGit = true
+					continue
+				}
+				kept = append(kept, c)
+			}
+			second.Children = kept
+			if !hadGit {
+				second = variantOf(t)
+			}
+			dev := 2
+			if n == 4 {
+				dev = 1
+			}
+			for _, o := range optionVectors(t, dev) {
+				if len(o.Paths) > 0 || o.NoSub || o.RealRoot || o.AbsPath {
+					continue
+				}
+				if n == 4 && !o.Git && !hadGit {
+					continue
+				}
+				for _, order := range [][2]*memfs.Node{{t, second}, {second, t}} {
+					if !validOptions(order[0], o) || !validOptions(order[1], o) {
+						continue
+					}
+					rec := &scankit.Rec{}
+					var exs []filesystem.Extractor
+					for _, e := range es {
+						exs = append(exs, &scankit.Ex{N: e.name, Rec: rec, Req: reqFn(e.req)})
+					}
+					var roots []*scalibrfs.ScanRoot
+					for _, rt := range order {
+						m := memfs.New(rt)
+						m.NoReadDirFile = o.NoRDF
+						roots = append(roots, &scalibrfs.ScanRoot{FS: m, Path: ""})
+					}
+					cfg := &scalibr.ScanConfig{FilesystemExtractors: exs, Capabilities: &plugin.Capabilities{}, ScanRoots: roots,
+						DirsToSkip: o.Skip, MaxFileSize: o.MaxSize, UseGitignore: o.Git, ReadSymlinks: o.Symlinks}
+					var re *regexp.Regexp
+					var gl glob.Glob
+					if o.Regex != "" {
+						re = regexp.MustCompile(o.Regex)
+						cfg.SkipDirRegex = re
+					}
+					if o.Glob != "" {
+						gl = glob.MustCompile(o.Glob)
+						cfg.SkipDirGlob = gl
+					}
+					var res *scalibr.ScanResult
+					p, stack := ev.Recover(func() { res = scalibr.New().Scan(context.Background(), cfg) })
+					r.Evals.Add(1)
+					desc := fmt.Sprintf("roots [%s] [%s] options %+v", order[0], order[1], o)
+					rp := map[string]any{"root1": order[0].String(), "root2": order[1].String(), "options": o}
+					if p != nil {
+						r.Violation("two-roots:panic", fmt.Sprintf("%s: panic %v at %s", desc, p, ev.PanicSite(stack)), rp)
+						continue
+					}
+					want := map[string]int{}
+					dc := map[string]bool{}
+					for _, rt := range order {
+						m := &model{root: rt, o: o, exs: es, re: re, gl: gl, dc: map[string]bool{}}
+						m.run()
+						for _, c := range m.calls {
+							want[c]++
+						}
+						for k := range m.dc {
+							dc[k] = true
+						}
+					}
+					got := map[string]int{}
+					for _, e := range rec.Of("extract") {
+						got[e.Ex+"|"+e.Path]++
+					}
+					var diff []string
+					for k, nw := range want {
+						if !dc[k] && got[k] != nw {
+							diff = append(diff, fmt.Sprintf("%s: %d calls, want %d", k, got[k], nw))
+						}
+					}
+					for k, ng := range got {
+						if !dc[k] && want[k] == 0 {
+							diff = append(diff, fmt.Sprintf("%s: %d calls, want 0", k, ng))
+						}
+					}
+					sort.Strings(diff)
+					if len(want) > 0 && o.active() != "" {
+						r.Nontrivial.Add(1)
+					}
+					if len(diff) > 0 || strings.HasPrefix(res.Status.String(), "FAILED") {
+						r.Violation("two-roots:"+o.active(), fmt.Sprintf("%s: %v (%s)", desc, diff, res.Status), rp)
+					}
+				}
+			}
+		})
 	}
 }
